@@ -1160,9 +1160,42 @@ func c08R6(r *Report) {
 			}
 		})
 		// (2) after the underlying write, a non-nil error (incl. short write) is stored in c.err before returning
+		// A private helper that makes the underlying write and hands count and error back without latching
+		// (writeChunkLocked(buf, b) (int, error)) is judged at its calls: there the call stands for the write.
+		relay := func(h *ssa.Function) bool {
+			if h == nil || h.Blocks == nil || relPkg(h) != "crypto" || h.Parent() != nil || h.Signature.Results().Len() != 2 || !isErrorType(h.Signature.Results().At(1).Type()) {
+				return false
+			}
+			if anyInstr(h, func(i ssa.Instruction) bool { _, ok := isStoreToField(i, errF); return ok }) != nil {
+				return false
+			}
+			return anyInstr(h, func(i ssa.Instruction) bool {
+				cc, ok := i.(*ssa.Call)
+				return ok && cc.Call.IsInvoke() && cc.Call.Method.Name() == "Write"
+			}) != nil
+		}
+		if relay(w) {
+			continue
+		}
+		helperShort := func(h *ssa.Function) bool {
+			// the helper turns a short write into io.ErrShortWrite itself
+			found := false
+			allInstrs(h, func(i ssa.Instruction) {
+				if ld, ok := i.(*ssa.UnOp); ok && ld.Op == token.MUL {
+					if g, isG := ld.X.(*ssa.Global); isG && g.Name() == "ErrShortWrite" {
+						found = true
+					}
+				}
+			})
+			return found
+		}
 		allInstrs(w, func(in ssa.Instruction) {
 			c, ok := in.(*ssa.Call)
-			if !ok || !c.Call.IsInvoke() || c.Call.Method.Name() != "Write" {
+			if !ok {
+				return
+			}
+			isRelayCall := !c.Call.IsInvoke() && relay(c.Call.StaticCallee())
+			if !isRelayCall && (!c.Call.IsInvoke() || c.Call.Method.Name() != "Write") {
 				return
 			}
 			n++
@@ -1268,6 +1301,9 @@ func c08R6(r *Report) {
 							return false
 						}
 						if mentionsShort(y.Val, 0) {
+							short = true
+						}
+						if isRelayCall && helperShort(c.Call.StaticCallee()) {
 							short = true
 						}
 					}
@@ -1637,8 +1673,42 @@ func mutexHeldAt(in ssa.Instruction, mu *types.Var) bool {
 			return 0
 		}
 		o := calleeObj(c)
-		if o == nil || o.Pkg() == nil || o.Pkg().Path() != "sync" {
+		if o == nil || o.Pkg() == nil {
 			return 0
+		}
+		if o.Pkg().Path() != "sync" {
+			// c.lockWrite(): a method of the same type whose whole body is the Lock (Unlock) of the mutex
+			h := c.Call.StaticCallee()
+			if h == nil || h.Blocks == nil || len(h.Blocks) != 1 || funcPkgPath(h) != funcPkgPath(f) || len(h.Params) == 0 {
+				return 0
+			}
+			res := 0
+			nCalls := 0
+			for _, hi := range h.Blocks[0].Instrs {
+				hc, isC := hi.(*ssa.Call)
+				if !isC {
+					continue
+				}
+				nCalls++
+				ho := calleeObj(hc)
+				if ho == nil || ho.Pkg() == nil || ho.Pkg().Path() != "sync" || hc.Call.IsInvoke() || len(hc.Call.Args) == 0 {
+					return 0
+				}
+				hfa, okf := hc.Call.Args[0].(*ssa.FieldAddr)
+				if !okf || fieldVar(hfa) != mu || hfa.X != ssa.Value(h.Params[0]) {
+					return 0
+				}
+				switch ho.Name() {
+				case "Lock", "RLock":
+					res = 1
+				case "Unlock", "RUnlock":
+					res = -1
+				}
+			}
+			if nCalls != 1 {
+				return 0
+			}
+			return res
 		}
 		fa, okf := c.Call.Args[0].(*ssa.FieldAddr)
 		if !okf || fieldVar(fa) != mu {
